@@ -58,6 +58,7 @@ fn main() {
             "holder-window" => holder::replay(&sc),
             "holder-seq" => holder::replay_seq(&sc),
             "holder-loser-window" => holder::replay_loser_window(&sc),
+            "holder-default-seq" => holder::replay_default_seq(&sc),
             "macro" => macros::replay(&sc),
             "queue" | "queue-capacity" | "queue-blocking-emit" | "queue-stats" | "queue-sampler" | "flush-delegation" | "queue-second-consumer" | "queue-drop-calls-sink" | "queue-emit-calls-sink" => queue::replay(&sc),
             _ => json!({"error": format!("unknown scenario kind {}", kind)}),
